@@ -142,6 +142,59 @@ def apply(it, fn, args, dest_ty, term, caller, depth):
     if path == "core::intrinsics::three_way_compare":
         return it.binop("Cmp", args[0], args[1], dest_ty)
 
+    # ---- comparisons of field-less enum values, Ord on integers (generic mode has no core bodies)
+    if name in ("eq", "ne") and fn.get("trait", "").endswith("PartialEq") and len(args) == 2:
+        a, b = deref_val(it, args[0]), deref_val(it, args[1])
+        if isinstance(a, Adt) and isinstance(b, Adt) and not a.fields and not b.fields and a.variant is not None and b.variant is not None and a.name == b.name:
+            return mkbool((a.variant == b.variant) == (name == "eq"))
+        if isinstance(a, Int) and isinstance(b, Int):
+            return it.binop("Eq" if name == "eq" else "Ne", a, b, dest_ty)
+    if name in ("cmp", "partial_cmp", "lt", "le", "gt", "ge") and fn.get("trait", "").split("::")[-1] in ("Ord", "PartialOrd") and len(args) == 2 \
+            and it.find_body(fn) is None:
+        a, b = deref_val(it, args[0]), deref_val(it, args[1])
+        if isinstance(a, Int) and isinstance(b, Int):
+            if name == "cmp":
+                return it.binop("Cmp", a, b, dest_ty)
+            if name == "partial_cmp":
+                return some(it.binop("Cmp", a, b, dest_ty))
+            return it.binop({"lt": "Lt", "le": "Le", "gt": "Gt", "ge": "Ge"}[name], a, b, dest_ty)
+    if name in ("lt", "le", "gt", "ge") and fn.get("trait", "").endswith("PartialOrd") and len(args) == 2 and it.find_body(fn) is None:
+        a, b = deref_val(it, args[0]), deref_val(it, args[1])
+        if isinstance(a, Adt) and isinstance(b, Adt):
+            # trait default on a user type: derived from its own partial_cmp
+            st = a.name
+            ub = None
+            for bdy in it.facts.fns.values():
+                if bdy["path"].endswith("::partial_cmp") and bdy.get("impl_trait", "").endswith("PartialOrd") and bdy.get("impl_self", "").split("<")[0] == st:
+                    ub = bdy
+            if ub is not None:
+                o = it.call_body(ub, [Ref(Cell(a, "a")), Ref(Cell(b, "b"))], depth + 1)
+                if isinstance(o, Adt) and o.name.endswith("Option") and o.variant == 1 and isinstance(o.fields[0], Adt) and o.fields[0].variant is not None:
+                    v = o.fields[0].variant
+                    return mkbool({"lt": v == 0, "le": v in (0, 1), "gt": v == 2, "ge": v in (1, 2)}[name])
+                if isinstance(o, Adt) and o.name.endswith("Option") and o.variant == 0:
+                    return mkbool(False)
+    if path in ("core::cmp::min", "core::cmp::max", "core::cmp::Ord::min", "core::cmp::Ord::max") and len(args) == 2:
+        a, b = args
+        if isinstance(a, Int) and isinstance(b, Int):
+            o = it.binop("Cmp", a, b, dest_ty)
+            gt = o.variant == 2
+        else:
+            # user type: use its own Ord::cmp
+            ub = None
+            st = (fn.get("targs") or [""])[0].split("<")[0]
+            for bdy in it.facts.fns.values():
+                if bdy["path"].endswith("::cmp") and bdy.get("impl_trait", "").endswith("cmp::Ord") and bdy.get("impl_self", "").split("<")[0] == st:
+                    ub = bdy
+            if ub is None:
+                return NotImplemented
+            o = it.call_body(ub, [Ref(Cell(a, "a")), Ref(Cell(b, "b"))], depth + 1)
+            if not (isinstance(o, Adt) and o.variant is not None):
+                raise Undecided("ordering %r" % (o,))
+            gt = o.variant == 2
+        if name == "min":
+            return b if gt else a
+        return a if gt else b
     # ---- clone / borrow / identity conversions
     if name == "clone" and (fn.get("trait", "").endswith("clone::Clone")):
         v = deref_val(it, args[0])
